@@ -44,12 +44,20 @@ def flagRange (level : Nat) (l : List G) (s e : Nat) : M (List G) := do
   let b ← ({ info := l.map G.toInfo, len := l.length, level := level } : Buf).unsafeToBreak s (some e)
   pure (List.zipWith (fun g x => { g with mask := x.mask }) l b.info)
 
-/-- `start`: `while i != 0 && is_stch(info[i - 1]) { i -= 1 }` from `i = l.length` -/
-def tileStart (l : List G) : Nat := l.length - (l.reverse.takeWhile G.isStch).length
+/-- `while i != 0 && p(info[i - 1]) { i -= 1 }`: where a backward scan from `i` stops (`i ≤ l.length` at every call, so the
+    `none` arm — an index panic in Rust — is never taken; the lemmas carry that hypothesis) -/
+def scanBack (p : G → Bool) (l : List G) : Nat → Nat
+  | 0 => 0
+  | i + 1 =>
+      match l[i]? with
+      | some g => if p g then scanBack p l i else i + 1
+      | none => i + 1
+
+/-- `start`: `while i != 0 && is_stch(info[i - 1]) { i -= 1 }` from `i = end = l.length` -/
+def tileStart (l : List G) : Nat := scanBack G.isStch l l.length
 
 /-- `context`: `while context != 0 && !is_stch(info[context-1]) && (di || word)(info[context-1]) { context -= 1 }` from `start` -/
-def wordStart (l : List G) : Nat :=
-  tileStart l - ((l.take (tileStart l)).reverse.takeWhile G.isWord).length
+def wordStart (l : List G) : Nat := scanBack G.isWord l (tileStart l)
 
 def sumBy (f : G → Int) (l : List G) : Int := l.foldl (fun a g => a + f g) 0
 
